@@ -324,7 +324,12 @@ std::string spell_number(Tape &t, const Q &v0, EmitStats &st, bool allow_fractio
     return plain() + "00";
   }
   case 3: case 4: {   // exponent form: mantissa * 10^e
-    int shift = (int)t.below(9) - 4;                       // move the decimal point by 'shift'
+    // move the decimal point by 'shift': mostly a few places, sometimes far enough that the exponent
+    // has two or three digits (the value is unchanged, only the literal gets long)
+    int shift = (int)t.below(9) - 4;
+    if (t.chance(1, 4)) shift = (int)t.below(121) - 60;
+    else if (t.chance(1, 12)) shift = (int)t.below(621) - 310;
+    if (shift >= 20 || shift <= -20) st.features.insert("num:exponent-2plus-digits");
     int sc = scale + shift;                                // mantissa = digits * 10^-sc , exponent = shift
     std::string mant = digits;
     if (sc > 0) { while ((int)mant.size() <= sc) mant = "0" + mant; mant.insert(mant.size() - sc, "."); }
